@@ -101,8 +101,13 @@ type knownFile struct {
 	Fixed []string `json:"fixed"`
 }
 
+var globalCleanup func()
+
 func infra(format string, a ...interface{}) {
 	fmt.Printf("INFRA: "+format+"\n", a...)
+	if globalCleanup != nil {
+		globalCleanup()
+	}
 	os.Exit(2)
 }
 
@@ -151,6 +156,7 @@ func main() {
 		}
 	}
 	defer cleanup()
+	globalCleanup = cleanup
 	os.Setenv("VERIF_SCRATCH", work)
 
 	overlay := buildOverlay(work)
